@@ -88,7 +88,101 @@ func controlContents() []contentIn {
 		{"control colon only", ":\n" + full},
 		{"control NUL bytes", "Package: a\x00\nVersion: 1\x00\nArchitecture: all\n"},
 	}
-	return append(out, shapes...)
+	out = append(out, shapes...)
+	return append(out, clearsignShapes()...)
+}
+
+// a clearsigned control file (the signature is armour-shaped filler: deb.Load passes no keyring)
+func clearsigned() string {
+	return "-----BEGIN PGP SIGNED MESSAGE-----\nHash: SHA256\n\n" + renderControl(baseControl[:5]) +
+		"-----BEGIN PGP SIGNATURE-----\n\niQEzBAEBCAAdFiEEabcdefghijklmnopqrstuvwxyz0123456789ABCDEFGHIJKL\nMNOPQRSTUVWXYZabcdefghijklmnopqrstuvwxyz0123456789+/ABCDEFGHIJKL\n=AbCd\n-----END PGP SIGNATURE-----\n"
+}
+
+func clearsignShapes() []contentIn {
+	doc := clearsigned()
+	out := []contentIn{
+		{"clearsigned control, complete", doc},
+		{"clearsign BEGIN line alone", "-----BEGIN PGP SIGNED MESSAGE-----\n"},
+		{"clearsign BEGIN line without newline", "-----BEGIN PGP SIGNED MESSAGE-----"},
+		{"clearsign BEGIN line with trailing garbage", "-----BEGIN PGP SIGNED MESSAGE----- garbage\nPackage: a\n"},
+		{"only '-----BEGIN PGP '", "-----BEGIN PGP "},
+		{"'-----BEGIN PGP ' then a paragraph", "-----BEGIN PGP \nPackage: a\nVersion: 1\nArchitecture: all\n"},
+		{"armour of a public key block", "-----BEGIN PGP PUBLIC KEY BLOCK-----\n\nmQENBF\n=AbCd\n-----END PGP PUBLIC KEY BLOCK-----\n"},
+		{"armour of a message", "-----BEGIN PGP MESSAGE-----\n\nhQEMA\n=AbCd\n-----END PGP MESSAGE-----\n"},
+		{"signature armour only", doc[strings.Index(doc, "-----BEGIN PGP SIGNATURE"):]},
+		{"two clearsigned documents", doc + doc},
+		{"clearsigned document then a plain paragraph", doc + "\n" + renderControl(baseControl)},
+		{"plain paragraph then a clearsigned document", renderControl(baseControl) + "\n" + doc},
+		{"clearsigned, dash-escaped body line", strings.Replace(doc, "Package: a", "- -Package: a", 1)},
+		{"clearsigned, END line missing its dashes", strings.Replace(doc, "-----END PGP SIGNATURE-----", "-----END PGP SIGNATURE", 1)},
+		{"clearsigned, CRLF", strings.ReplaceAll(doc, "\n", "\r\n")},
+	}
+	// every prefix of the clearsigned document (cuts at every armour boundary and everywhere in between)
+	for c := 1; c < len(doc); c++ {
+		out = append(out, contentIn{fmt.Sprintf("clearsigned control cut at %d of %d", c, len(doc)), doc[:c]})
+	}
+	return out
+}
+
+// ---- truncated tails of typed field values ----
+
+var editSymbols = []string{"(", ")", "[", "]", "<", ">", "!", "$", "{", "}", ",", "|", " ", "a"}
+
+func tails(rich string) []string {
+	var out []string
+	for c := 0; c <= len(rich); c++ {
+		out = append(out, rich[:c])
+		for _, e := range editSymbols {
+			out = append(out, rich[:c]+e)
+		}
+	}
+	return out
+}
+
+func (x *runner) controlTailsScenario(r *mc.Run) {
+	type tin struct {
+		field, val string
+	}
+	var ins []tin
+	richDep := "a:any (>= 1.0) [amd64 !i386] <!x y> <z> | ${misc:Depends}, b"
+	for _, f := range []string{"Depends", "Recommends", "Suggests", "Breaks", "Replaces", "Built-Using"} {
+		for _, v := range tails(richDep) {
+			ins = append(ins, tin{f, v})
+		}
+	}
+	for _, v := range tails("1:2.0~rc1+b1-3") {
+		ins = append(ins, tin{"Version", v})
+	}
+	for _, rich := range []string{"gnu-linux-amd64", "linux-any"} {
+		for _, v := range tails(rich) {
+			ins = append(ins, tin{"Architecture", v})
+		}
+	}
+	for _, v := range tails("1024") {
+		ins = append(ins, tin{"Installed-Size", v})
+	}
+	idx := map[string]int{}
+	for i, f := range baseControl {
+		idx[f.k] = i
+	}
+	const chunk = 64
+	x.conv0Only = true
+	defer func() { x.conv0Only = false }()
+	r.Scenario("control-tails", map[string]interface{}{"inputs": len(ins), "rich_dependency": richDep, "rich_version": "1:2.0~rc1+b1-3", "rich_architectures": []string{"gnu-linux-amd64", "linux-any"},
+		"values": "every prefix of the rich value, and every prefix followed by one of " + strings.Join(editSymbols, " "), "fields": "the six dependency fields, Version, Architecture, Installed-Size",
+		"container": "well-formed stored package; deb.Load (bytes.Reader), twice"},
+		(len(ins)+chunk-1)/chunk, func(shard int, st *mc.Stats) bool {
+			lim := limiter{}
+			for i := shard * chunk; i < (shard+1)*chunk && i < len(ins); i++ {
+				fs := append([]fieldKV(nil), baseControl...)
+				fs[idx[ins[i].field]].v = ins[i].val
+				st.Transitions++
+				if !x.one("control-tails", st, lim, gen.ArmBuild(debWith(renderControl(fs), false)), "load", fmt.Sprintf("control %s=%q", ins[i].field, ins[i].val)) {
+					return false
+				}
+			}
+			return !r.Expired()
+		})
 }
 
 // debWith builds a well-formed package around a control file text.
